@@ -783,7 +783,12 @@ class Dict(dict, base.Symbolic, pg_typing.CustomTyping):
           '\'popitem\' cannot be performed on a Dict with value spec.')
     if base.treats_as_sealed(self):
       raise base.WritePermissionError('Cannot pop item from a sealed Dict.')
-    return super().popitem()
+    key, value = super().popitem()
+    # Detach the removed value from object tree.
+    if isinstance(value, base.TopologyAware):
+      value.sym_setparent(None)
+      value.sym_setpath(utils.KeyPath())
+    return key, value
 
   def clear(self) -> None:
     """Removes all the keys in current dict."""
@@ -791,7 +796,13 @@ class Dict(dict, base.Symbolic, pg_typing.CustomTyping):
       raise base.WritePermissionError('Cannot clear a sealed Dict.')
     value_spec = self._value_spec
     self._value_spec = None
+    removed = list(self.sym_values())
     super().clear()
+    # Detach the removed values from object tree.
+    for value in removed:
+      if isinstance(value, base.TopologyAware):
+        value.sym_setparent(None)
+        value.sym_setpath(utils.KeyPath())
 
     if value_spec:
       self.use_value_spec(value_spec, self._allow_partial)
